@@ -621,16 +621,27 @@ impl Session {
             )
         })?;
 
-        // Commit RDF store pending operations
-        #[cfg(feature = "rdf")]
-        self.rdf_store.commit_tx(tx_id);
+        // Validate and commit in the transaction manager first: a refused commit
+        // must leave none of the transaction's changes behind.
+        match self.tx_manager.commit(tx_id) {
+            Ok(epoch) => {
+                // Apply RDF store pending operations
+                #[cfg(feature = "rdf")]
+                self.rdf_store.commit_tx(tx_id);
 
-        let epoch = self.tx_manager.commit(tx_id)?;
-
-        // Keep the store's own epoch in step with the transaction manager so that
-        // epoch-filtered accessors (node_ids, get_node, counts, export) see committed data.
-        self.store.sync_epoch(epoch);
-        Ok(())
+                // Keep the store's own epoch in step with the transaction manager so that
+                // epoch-filtered accessors (node_ids, get_node, counts, export) see committed data.
+                self.store.sync_epoch(epoch);
+                Ok(())
+            }
+            Err(e) => {
+                self.store.discard_uncommitted_versions(tx_id);
+                #[cfg(feature = "rdf")]
+                self.rdf_store.rollback_tx(tx_id);
+                let _ = self.tx_manager.abort(tx_id);
+                Err(e)
+            }
+        }
     }
 
     /// Aborts the current transaction.
